@@ -18,12 +18,15 @@ class Run:
     def __init__(self, prefix):
         self.prefix = list(prefix)
         self.choices = []
-        self.points = []   # (arity, label, cost_of_deviation)
+        self.points = []   # (arity, label)
+        self.costs = []
 
-    def choose(self, n, label, expected=None):
+    def choose(self, n, label, cost=1):
+        """cost = what a non-default answer at this point counts against the
+        deviation bound (0 = always explore every alternative)."""
         i = len(self.choices)
         if i < len(self.prefix):
-            c, (pn, plabel) = self.prefix[i]
+            c, (pn, plabel) = self.prefix[i][0], self.prefix[i][1][:2]
             if pn != n or plabel != label:
                 raise Divergence(
                     f"replay divergence at point {i}: recorded {(pn, plabel)}, "
@@ -34,10 +37,11 @@ class Run:
             raise Divergence(f"choice {c} out of range {n} at point {i}")
         self.choices.append(c)
         self.points.append((n, label))
+        self.costs.append(cost)
         return c
 
     def deviations(self):
-        return sum(1 for c in self.choices if c)
+        return sum(k for c, k in zip(self.choices, self.costs) if c)
 
 
 class Explorer:
@@ -67,14 +71,14 @@ class Explorer:
             self.points_seen += len(run.points)
             yield run, result
             dev_before = [0]
-            for c in run.choices:
-                dev_before.append(dev_before[-1] + (1 if c else 0))
+            for c, k in zip(run.choices, run.costs):
+                dev_before.append(dev_before[-1] + (k if c else 0))
             # alternatives at points after the prefix (in reverse so that the
             # DFS pops the earliest deviation first)
             new = []
             for i in range(len(prefix), len(run.points)):
                 n, label = run.points[i]
-                if dev_before[i] + 1 > self.bound:
+                if dev_before[i] + run.costs[i] > self.bound:
                     continue
                 for alt in range(1, n):
                     pre = [(run.choices[j], run.points[j]) for j in range(i)]
